@@ -1,5 +1,5 @@
 from .. import facts
-from ..rules import sampling, tables, geometry, traps, prefetch, alloc, filt, region
+from ..rules import sampling, tables, geometry, traps, prefetch, alloc, filt, region, codec
 
 
 def run(ck):
@@ -27,3 +27,4 @@ def run(ck):
     geometry.r_dispatch_needs_extent_analysis(ck, P)
     region.r7_20_partial_word_read_needs_partial_word(ck, P)     # the bitmap import reads the caller's a1 image
     region.r7_19_bitmap_read_only_with_pixels(ck, P, 'C04-R21')
+    codec.r20_pixel_reader_stride_matches_row_format(ck, P)
